@@ -88,7 +88,7 @@ def _case(draw):
                 items.append(f"({p}.n, {p})")
         elif k == 8:  # comprehension target shadows
             s = draw(st.sampled_from(["G1", v1_name, "v2", p]))
-            items.append(f"[{s} * 2 for {s} in {p}.xs]")
+            items.append(draw(st.sampled_from([f"[{s} * 2 for {s} in {p}.xs]", f"[{s} * 2 for {s} in {p}.xs if {s} > 1]", f"[x for x in [{s} for {s} in {p}.xs if {s} != 2 if {s} > 0]]"])))
             if s == p:
                 items.append(f"{p}.xs.Select(lambda q: (q, {p}))")
         elif k == 9:  # depth 3 with a shadow in the innermost lambda and a capture next to it
